@@ -157,9 +157,10 @@ ensures
         _sink = _mb.group(1).replace('msg.to_string()', 'oq3_msg_to_string(msg)')
         _tail = _mb.group(2).replace('for (i, err) in lexed.errors() {', 'let mut oq3_it1 = lexed.errors();\n    loop\n@@TAIL_INV@@\n    {\n    match oq3_it1.next() { None => { break; } Some((i, err)) => {').replace('        errors.push(SyntaxError::new(err, text_range))\n    }', '        errors.push(SyntaxError::new(err, text_range))\n    } } }')
         _inv = '''        invariant
-            errors@.len() + oq3_it1.rest().len() == n0 + lexed.err_tokens().len(), errors@.len() >= n0,
-            oq3_it1.rest() =~= lexed.err_tokens().skip(errors@.len() - n0),
-            errors@.take(n0 as int) == e0,
+            errors@.len() + oq3_it1.rest().len() == n0 + lexed.err_tokens().len(),      //@C11,C12:one-diagnostic-per-lexical-error
+            errors@.len() >= n0,
+            oq3_it1.rest() =~= lexed.err_tokens().skip(errors@.len() - n0),             //@C11,C12:one-diagnostic-per-lexical-error
+            errors@.take(n0 as int) == e0,                                              //@C12,C11:syntactic-diagnostics-kept
             forall|k: int| 0 <= k < lexed.err_tokens().len() ==> #[trigger] lexed.err_tokens()[k] < lexed.ntok(),
             forall|i: nat| i < lexed.ntok() ==> (#[trigger] lexed.range_of(i)).0 <= lexed.range_of(i).1 && lexed.range_of(i).1 <= lexed.blen() && lexed.blen() <= u32::MAX,
             forall|k: int| n0 <= k < errors@.len() ==> (#[trigger] errors@[k]).sp_range() == lexed.range_of(lexed.err_tokens()[k - n0] as nat),      //@C11,C12:lexical-diagnostic-on-its-lexeme
